@@ -17,6 +17,15 @@ import time
 from adapters.poolsim import f, value, decode
 
 
+class ConsumerExc(Exception):
+    pass
+
+
+def consumer_exc_as_yield(e):
+    """an exception the consumer got from the library = a 'result' that is no element's value (rejected by the results clause)"""
+    return {"op": "yield", "c": 0, "i": 0} if e.get("op") == "consumer_exc" else e
+
+
 def _child(scen, wfd):
     sys.path.insert(0, "/repo")
     import importlib
@@ -84,19 +93,27 @@ def _child(scen, wfd):
     else:
         created = [Wk(None) for _ in range(scen["nw"])]
         pool = opp.FunctorPool(created, None, **kw)
-    with pool:
-        if scen.get("uar") == "start":
-            pool.until_all_ready()
-            ev(op="all_ready", ws=[p.wid for p in pool.procs])
-        for ci, call in enumerate(scen["calls"]):
-            c = ci + 1
-            ev(op="call_begin", c=c, n=call["n"], chunk=call["chunk"], ord=1 if call["ordered"] else 0)
-            meth = pool.imap if call["ordered"] else pool.imap_unordered
-            for y in meth(data_of(c, call), call["chunk"]):
-                cc, ii = decode(y)
-                ev(op="yield", c=cc, i=ii)
-                time.sleep(call.get("consume_sleep", 0))
-            ev(op="call_end")
+    try:
+        with pool:
+            if scen.get("uar") == "start":
+                pool.until_all_ready()
+                ev(op="all_ready", ws=[p.wid for p in pool.procs])
+            for ci, call in enumerate(scen["calls"]):
+                c = ci + 1
+                ev(op="call_begin", c=c, n=call["n"], chunk=call["chunk"], ord=1 if call["ordered"] else 0)
+                meth = pool.imap if call["ordered"] else pool.imap_unordered
+                try:
+                    for y in meth(data_of(c, call), call["chunk"]):
+                        cc, ii = decode(y)
+                        ev(op="yield", c=cc, i=ii)
+                        time.sleep(call.get("consume_sleep", 0))
+                except Exception as e:
+                    # the library raised into the consumer: an observation (the call did not deliver its results), not a harness failure
+                    ev(op="consumer_exc", what=repr(e)[:200])
+                    raise ConsumerExc()
+                ev(op="call_end")
+    except ConsumerExc:
+        pass
     procs = list(pool.procs) + [w for w in created if w not in pool.procs]
     alive = sum(1 for p in procs if p.is_alive())
     ev(op="exit", alive=alive)
@@ -173,7 +190,7 @@ def run_scenario(scen, watchdog=60.0):
 def to_trace(events, finished):
     evs = [dict(e) for e in events]
     exc = next((e for e in evs if e["op"] == "harness_exc"), None)
-    evs = [e for e in evs if e["op"] != "harness_exc"]
+    evs = [consumer_exc_as_yield(e) for e in evs if e["op"] != "harness_exc"]
     if not any(e["op"] == "exit" for e in evs):
         evs.append({"op": "hang"})
     tr, phase, calls, got = [], "init", 0, 0
